@@ -23,7 +23,8 @@ def esc(name):
 def names(ctx, rng):
     base = ["", ".", "..", ".x", ".kismet_temp", ".kismet_0001", "/abs", "/", "\\b", "\\", "a/b", "x/../../escaped", "n/m", "k3/", "k3/.",
             "a/../b", "a//b", "a/./b", "ok", "a..b", "a.b", "-dash", "~tilde", "with space", "tab\there", "new\nline",
-            "ключ", "日本", "a" * 255, "b" * 256, "c" * 1000, "a\\b", "%41", "k3/..", "d/" + "e" * 300]
+            "ключ", "日本", "a" * 255, "b" * 256, "c" * 1000, "a\\b", "%41", "k3/..", "d/" + "e" * 300,
+            "a" * 255 + "/x", "f" * 300 + "/x", "g" * 255 + "/../../escaped"]     # the separator sits beyond NAME_MAX bytes
     if not ctx.quick():
         base += ["z" * 4096, "nul\x00byte", "a/" * 40 + "x"]
         for _ in range(40):
@@ -237,7 +238,7 @@ def run(ctx):
         if k not in seen:
             seen.add(k); uniq.append(v)
     cov = {"evaluations": len(res) + len(mres), "distinct_nontrivial": nontriv,
-           "rule": "names {empty, each reserved first byte, embedded '/', '..' components, trailing '/' and '/.', 255/256/1000%s-byte names, non-ASCII, spaces/control characters%s} x {get, touch, set, put, set_temp_file, put_temp_file, ensure, get_or_update/Replace, read-only get/touch, direct plain/sharded API} x {plain, sharded, read-only-only} stacks, with sentinel files around and inside the cache root: result class, mutating calls of the trace, before/after snapshots; and model/implementation agreement; plus accepted names written over capacity with maintenance firing next to dot-prefixed application files (one with a non-UTF-8 name) and a nested sub-directory: nothing reserved may change. Non-trivial = rejected name or a byte outside [A-Za-z0-9_-], or a maintenance case." % (("" if ctx.quick() else "/4096"), ("" if ctx.quick() else ", NUL, random mutations")),
+           "rule": "names {empty, each reserved first byte, embedded '/' (also beyond the first 255 bytes), '..' components, trailing '/' and '/.', 255/256/1000%s-byte names, non-ASCII, spaces/control characters%s} x {get, touch, set, put, set_temp_file, put_temp_file, ensure, get_or_update/Replace, read-only get/touch, direct plain/sharded API} x {plain, sharded, read-only-only} stacks, with sentinel files around and inside the cache root: result class, mutating calls of the trace, before/after snapshots; and model/implementation agreement; plus accepted names written over capacity with maintenance firing next to dot-prefixed application files (one with a non-UTF-8 name) and a nested sub-directory: nothing reserved may change. Non-trivial = rejected name or a byte outside [A-Za-z0-9_-], or a maintenance case." % (("" if ctx.quick() else "/4096"), ("" if ctx.quick() else ", NUL, random mutations")),
            "samples": samples, "traces_validated_against_impl": agree}
     if not ctx.quick():
         rc, o = C.coqchk(PROPS)
